@@ -479,8 +479,47 @@ func runC10(w *World, r *Report) {
 				return (isElem0(x) && y == ssa.Value(keyParam)) || (isElem0(y) && x == ssa.Value(keyParam))
 			})
 			good = g1 && g2
+			// the scan over the option's paths is exhaustive: the loop is left early only after a match
+			if good {
+				exh := false
+				instrs(f, func(in ssa.Instruction) {
+					iff, ok := in.(*ssa.If)
+					if !ok {
+						return
+					}
+					op, _, y, ok := asCmp(iff.Cond)
+					if !ok || op != token.LSS {
+						return
+					}
+					lv, ok := y.(*ssa.Call)
+					if !ok || !isBuiltin(lv, "len") || !isLoadOfField(lv.Call.Args[0], optPaths) {
+						return
+					}
+					h := iff.Block()
+					body := h.Succs[0]
+					exh = true
+					for _, b := range f.Blocks {
+						if !(b == body || body.Dominates(b)) {
+							continue
+						}
+						for _, s := range b.Succs {
+							inBody := s == body || body.Dominates(s)
+							if inBody || s == h {
+								continue
+							}
+							// early exit edge: must come after the match (dominated by the append)
+							if !(b == aps[0].Block() || aps[0].Block().Dominates(b)) {
+								exh = false
+							}
+						}
+					}
+				})
+				if !exh {
+					good = false
+				}
+			}
 		}
-		r.Check(good, "C10.designation", "initNodeCallbacks takes handlers designated to exactly this node", f.Pos(), "append guarded by len(path)==1 && path[0]==key", "node callbacks are not restricted to options whose path is exactly [key]")
+		r.Check(good, "C10.designation", "initNodeCallbacks takes handlers designated to exactly this node", f.Pos(), "append guarded by len(path)==1 && path[0]==key; all designated paths are scanned", "node callbacks are not exactly the options one of whose paths is [key] (guard changed, or the scan over the paths stops before a match)")
 	}
 }
 
